@@ -115,6 +115,10 @@ class Software(SimComponent, ABC):
     def __init__(self, **kwargs):
         super().__init__(**kwargs)
         self.health_state_actual = self.config.starting_health_state  # don't remove this
+        if self.health_state_actual == SoftwareHealthState.FIXING and self._fixing_countdown is None:
+            # software configured to start mid-fix: the fix takes the configured duration (a missing countdown made the
+            # first timestep raise TypeError)
+            self._fixing_countdown = self.config.fixing_duration
 
     def _init_request_manager(self) -> RequestManager:
         """
